@@ -14,6 +14,11 @@ argument and result; TLC validates every record with spec/CsgTrace.tla:
       surfaces; at every tree EVERY request of the alphabet (True/False/Surface/Negated/And/Or
       with 0..3 operands incl. duplicates, unsorted) and every rewrite/encoding; TLC itself
       checks that the enumeration is complete (alphabet order, DFS stack, obligations per tree);
+  (a') DIRECTED family for transform_negated_joins (spec/Csg.tla DMFamily, generated and design-
+      checked by TLC through CsgMC, replayed by vcsg): a negated join !J / J shared by 2..3 parent
+      joins {all, any} x {plain, negated} in EVERY order, negations right after / after all
+      parents, J also a volume / used positively, one level deeper, several volume sets; these
+      trees need >= 7 growing inserts and lie outside the exhaustive scope;
   (b) seeded RANDOM large programs (<= 10 surfaces, <= 60 nodes, duplicate / complementary /
       constant operands, shared sub-expressions, deep chains) through the production pipeline
       (encode, replace a volume by a constant, encode again, De Morgan);
@@ -32,7 +37,7 @@ LEVEL = "translation_validation"
 
 JAVA_OPTS = {"JAVA_TOOL_OPTIONS": "-XX:ParallelGCThreads=2 -XX:CICompilerCount=2"}
 _KEYS = ("programs", "obligations", "blocks", "inserts", "encodings", "simple", "rewrites",
-         "contradictions", "infixeval", "fixtures", "skipped")
+         "contradictions", "infixeval", "fixtures", "skipped", "famcases")
 
 
 def _summary(out):
@@ -66,7 +71,7 @@ def _context(path, lineno):
                 break
             if i == lineno:
                 rec = line
-            elif '"e":"Tree"' in line or '"e":"Build"' in line:
+            elif '"e":"Tree"' in line or '"e":"Build"' in line or '"e":"Case"' in line:
                 ctxrec = line
     return ctxrec, rec
 
@@ -84,6 +89,37 @@ def _run_vcsg(ctx, name, args, tail=()):
     return out
 
 
+def _family(ctx, level):
+    """The directed family as ndjson, generated (and design-checked: CsgMC FamilyOK) by TLC from the
+    spec; cached under the build root, keyed by the spec text."""
+    h = hashlib.sha1()
+    for f in ("Csg.tla", "CsgMC.tla"):
+        with open(os.path.join(vlib.SPEC, f), "rb") as fh:
+            h.update(fh.read())
+    cdir = os.path.join(vlib.BUILDROOT, "cache_c10")
+    os.makedirs(cdir, exist_ok=True)
+    path = os.path.join(cdir, "family_L%d_%s.ndjson" % (level, h.hexdigest()[:16]))
+    if not os.path.exists(path):
+        cfg = ctx.path("CsgMC_family.cfg")
+        with open(cfg, "w") as fh:
+            fh.write("SPECIFICATION Spec\nCONSTANTS\n  NS = 3\n  MaxNodes = 2\n")
+        tmp = ctx.path("family_L%d.ndjson" % level)
+        env = dict(JAVA_OPTS)
+        env.update({"C10_FAMILY_OUT": tmp, "C10_FAMILY_LEVEL": level})
+        r = vlib.tlc("CsgMC", cfg, workers=1, env=env, timeout=3000, heap="6g")
+        if r.code != 0 or not os.path.exists(tmp):
+            if "Assumption" in r.out and "is false" in r.out:
+                ctx.violation("design check of the directed family (CsgMC FamilyOK) fails:\n" + r.out[-2000:],
+                              tags={"design": "CsgMC family"})
+                return None, 0
+            raise vlib.Broken("TLC failed generating the directed family: exit %d\n%s" % (r.code, r.out[-3000:]))
+        os.replace(tmp, path)
+        vlib.log("directed family level %d generated in %.0fs" % (level, r.wall))
+    with open(path) as fh:
+        n = sum(1 for _ in fh)
+    return path, n
+
+
 def run(ctx):
     vlib.build(["vcsg"])
     q = ctx.quick
@@ -95,9 +131,11 @@ def run(ctx):
     if q:
         mc_nodes, depth, split, nsh = 6, 4, 3, 6
         nrand_shards, nprog = 5, 20
+        fam_level, nfam = 1, 4
     else:
         mc_nodes, depth, split, nsh = 7, 5, 3, 16
         nrand_shards, nprog = 16, 150
+        fam_level, nfam = 2, 16
     jobs = []  # (name, harness args (without out path), kind)
     if getattr(ctx, "replay", None):
         jobs.append(("replay", None, "replay"))
@@ -107,6 +145,12 @@ def run(ctx):
         for k in range(nrand_shards):
             jobs.append(("rand%d" % k, ["rand", ctx.seed + 7919 * k, nprog, 10, 60], "rand"))
         jobs.append(("fix", ["fix", ctx.seed], "fix"))
+        fam_path, fam_size = _family(ctx, fam_level)
+        if fam_path:
+            for k in range(nfam):
+                jobs.append(("fam%d" % k, ["fam", fam_path, fam_level, nfam, k], "fam"))
+            ctx.coverage["directed_family"] = {"level": fam_level, "cases": fam_size,
+                                               "generated_by": "TLC from spec/Csg.tla DMFamily via CsgMC (FamilyOK)"}
 
     # ---------------------------------------------------------------- harness runs
     traces = {}
@@ -121,6 +165,12 @@ def run(ctx):
             want = {"e": "Exh", "ns": ns, "depth": depth, "split": split, "nshards": nsh, "shard": int(name[3:])}
             if head != want:
                 raise vlib.Broken("exhaustive shard header %r != requested %r" % (head, want))
+        if kind == "fam":
+            with open(traces[name]) as fh:
+                head = json.loads(fh.readline())
+            want = {"e": "Fam", "level": fam_level, "nshards": nfam, "shard": int(name[3:])}
+            if head != want:
+                raise vlib.Broken("family shard header %r != requested %r" % (head, want))
 
     # ---------------------------------------------------------------- TLC: design + traces
     tj = []
@@ -135,7 +185,7 @@ def run(ctx):
         e = dict(JAVA_OPTS)
         e["TRACE"] = traces[name]
         tj.append(dict(module="CsgTrace", cfg="CsgTrace", workers=1, env=e, timeout=3000, heap="5g"))
-    results = vlib.tlc_parallel(tj, maxpar=12 if q else 16)
+    results = vlib.tlc_parallel(tj, maxpar=16)
     vlib.log("TLC wall times: " + " ".join("%s=%.0fs" % (j["module"][3:] + os.path.basename(j["env"].get("TRACE", ""))[:-7], r.wall)
                                            for j, r in zip(tj, results)))
 
@@ -168,9 +218,15 @@ def run(ctx):
                             fh.write(ctxrec)
                         fh.write(rec)
                     extra.append(cpath)
+                tree_txt = (ctxrec or "")[:700]
+                if ctxrec and '"e":"Case"' in ctxrec:
+                    c = json.loads(ctxrec)
+                    tree_txt = ("directed family case ri=%d: inserts %s; volume sets (handles) %s; tree %s"
+                                % (c["ri"], [[o["k"]] + o["h"] for o in c["sym"]["ops"]], c["sym"]["volsets"],
+                                   [[nd["k"]] + nd["a"] for nd in c["tree"]]))
                 what = ("trace %s (vcsg %s) rejected by CsgTrace at record %s\n%s\nrecord: %s\ntree: %s"
                         % (name, " ".join(map(str, args or [])), ln, _fail_text(r.out) or r.out[-1500:],
-                           (rec or "")[:700], (ctxrec or "")[:700]))
+                           (rec or "")[:700], tree_txt))
                 ctx.violation(what, tags={"trace": kind}, files=[path] + extra)
                 continue
             raise vlib.Broken("TLC failed on %s: exit %d\n%s" % (name, r.code, r.out[-3000:]))
@@ -189,7 +245,7 @@ def run(ctx):
         with open(traces[name]) as fh:
             for i, line in enumerate(fh):
                 records += 1
-                if '"e":"Tree"' in line or '"e":"Build"' in line:
+                if '"e":"Tree"' in line or '"e":"Build"' in line or '"e":"Case"' in line:
                     rec = json.loads(line)
                     tree = rec["tree"]
                     if any(nd["k"] in ("and", "or") for nd in tree):
@@ -199,6 +255,11 @@ def run(ctx):
                         samples.append({"kind": "random program", "surfaces": rec["ns"], "nodes": len(tree),
                                         "inserts": [[o["op"]["k"]] + o["op"]["a"] for o in rec["ops"]],
                                         "volumes": rec["vols"]})
+                    if rec["e"] == "Case" and name == "fam1" and not any(x["kind"] == "directed family case" for x in samples) \
+                            and rec["ri"] > 300:
+                        samples.append({"kind": "directed family case", "raw_index": rec["ri"],
+                                        "inserts": [[o["k"]] + o["h"] for o in rec["sym"]["ops"]],
+                                        "volume_sets": rec["sym"]["volsets"]})
                     if rec["e"] == "Tree" and rec.get("src") == "block" and rec.get("depth") == depth \
                             and sum(1 for x in samples if x["kind"] == "exhaustive block") < 2 and name == "exh1":
                         samples.append({"kind": "exhaustive block", "inserts": [[o["k"]] + o["a"] for o in rec["prog"]],
@@ -240,6 +301,7 @@ def run(ctx):
         "contradictions_thrown_all_unsatisfiable": tot["contradictions"],
         "infix_evaluator_runs": tot["infixeval"],
         "fixture_volumes": tot["fixtures"],
+        "directed_family_cases_validated": tot["famcases"],
         "fixture_files": len(fixtures),
         "encodings_not_logged_too_long": toolong,
     })
